@@ -237,6 +237,8 @@ pub fn cases(thorough: bool) -> Vec<Case> {
         .filter(|e| !matches!(e, BlockEdit::Empty))
         .map(|e| Kind::Hdr(*e))
         .collect();
+    // payout lies (applicable to candidate blocks that carry a fee transaction)
+    kinds.extend(crate::adversary::PAYOUT_EDITS.iter().map(|e| Kind::Hdr(*e)));
     kinds.extend(TX_KINDS.iter().map(|e| Kind::Tx(*e)));
     for loading_completed in [true, false] {
         for m in 1..=mmax {
